@@ -47,6 +47,13 @@ func (vm *verifMachine) havocAtBoundary() {
 	c.currentCycle = 0
 	c.currentSubinstructions = nil
 	c.currentIsFinishedEarly = nil
+	// representation invariant of the EI latch: at most 2 boundaries left, and only while the master enable is off
+	vAssume(c.eiDelay <= 2 && (c.eiDelay == 0 || !vm.intr.Enabled()))
+}
+
+// imeAtBoundary: the master enable as the dispatch decision at this boundary will see it
+func (vm *verifMachine) imeAtBoundary() bool {
+	return vm.intr.Enabled() || vm.c.eiDelay == 1
 }
 
 func (vm *verifMachine) placeOpcode(op uint8, cb bool) {
@@ -61,7 +68,7 @@ func (vm *verifMachine) placeOpcode(op uint8, cb bool) {
 func (vm *verifMachine) refFromImpl(mem *[0x10000]byte) *refCPU {
 	c := vm.c
 	return &refCPU{a: c.a, f: c.f, b: c.b, c: c.c, d: c.d, e: c.e, h: c.h, l: c.l, sp: c.sp, pc: c.pc,
-		ime: vm.intr.Enabled(), halted: c.halted, stopped: c.stopped, haltbug: c.haltbug, mem: mem,
+		ime: vm.intr.Enabled(), eiCnt: c.eiDelay, halted: c.halted, stopped: c.stopped, haltbug: c.haltbug, mem: mem,
 		pending: vm.intr.ReadIE()&vm.intr.ReadIF()&0x1f != 0}
 }
 
@@ -96,19 +103,36 @@ func (vm *verifMachine) assertRegs(r *refCPU) {
 }
 
 // VerifInstr: C01 (effect), C02 (cycle count) and C03 (access cycles) for one opcode (configuration),
-// all register/flag/operand/memory values symbolic, no interrupt pending.
+// all register/flag/operand/memory values symbolic, from every state in which no dispatch is due
+// (master enable clear, or nothing both enabled and requested).
 func VerifInstr() {
+	verifInstr(false)
+}
+
+// VerifInstrHaltBug: the same with the halt-bug latch set, as HALT leaves it when it is executed with the
+// master enable clear and a request pending (C05): the opcode byte is executed without PC advancing.
+func VerifInstrHaltBug() {
+	verifInstr(true)
+}
+
+func verifInstr(haltbug bool) {
 	op := uint8(vCfg("op"))
 	cb := vCfg("cb") != 0
 	vm := newVerifMachine()
 	vm.havocAtBoundary()
-	vAssume(vm.intr.ReadIE()&vm.intr.ReadIF()&0x1f == 0)
+	pending := vm.intr.ReadIE()&vm.intr.ReadIF()&0x1f != 0
+	vAssume(!(vm.imeAtBoundary() && pending))
+	if haltbug {
+		vAssume(pending)
+		vm.c.haltbug = true
+	}
 	vm.placeOpcode(op, cb)
 	var pre [0x10000]byte
 	pre = vm.mp.Mem
 	r := vm.refFromImpl(&pre)
 	ie, iff := vm.intr.ReadIE(), vm.intr.ReadIF()
 	n := vm.runToBoundary(7)
+	r.boundary()
 	r.step()
 
 	// C01: effect
@@ -116,6 +140,7 @@ func VerifInstr() {
 	probe := vU16("probe")
 	vAssert("memory", vm.mp.Mem[probe] == r.memAfter(probe))
 	vAssert("IME", vm.intr.Enabled() == r.ime)
+	vAssert("EI-latch", vm.c.eiDelay == r.eiCnt)
 	vAssert("IE-IF-untouched", vm.intr.ReadIE() == ie && vm.intr.ReadIF() == iff)
 	vAssert("halted", vm.c.halted == r.halted)
 	vAssert("stopped", vm.c.stopped == r.stopped)
